@@ -12,6 +12,8 @@ package sonic
 //@   requires dst != nil && bbInv(dst) && cap(dst.data) <= 1<<46 && disjoint(item, dst.data[0:cap(dst.data)])
 //@   ensures [inv] bbInv(dst) && dst.si == old(dst.si) && dst.ri >= old(dst.ri) && dst.ri - dst.si <= old(dst.ri - dst.si) + (dst.wi - old(dst.wi))
 //@   ensures [failed] result != nil ==> dst.wi - dst.si == old(dst.wi - dst.si)
+//@   // the buffer's storage is the same array as before or a newly allocated one
+//@   ensures [storage] (ptr(dst.data) == old(ptr(dst.data)) && cap(dst.data) == old(cap(dst.data))) || fresh(dst.data)
 //@   modifies fields(dst), memcap(dst.data)
 
 // Decoder.Decode: never touches the save area; the marks stay ordered.
@@ -29,7 +31,11 @@ package sonic
 
 //@ func (*CodecConn).WriteNext
 //@   prop C19
-//@   requires ccInv(c) && disjoint(item, c.dst.data[0:cap(c.dst.data)]) && c.dst.wi == c.dst.si
+//@   requires ccInv(c) && disjoint(item, c.dst.data[0:cap(c.dst.data)])
 //@   ensures [inv] bbInv(c.dst) && c.dst.si == old(c.dst.si)
 //@   // after a write completes successfully nothing of the item is left behind
 //@   ensures [nothing-left] err == nil ==> c.dst.wi == c.dst.si
+//@   ensures [storage] (ptr(c.dst.data) == old(ptr(c.dst.data)) && cap(c.dst.data) == old(cap(c.dst.data))) || fresh(c.dst.data)
+//@   ensures [conn] ccInv(c)
+//@   // only the write buffer changes (the transport is assumed not to touch our heap)
+//@   modifies fields(c.dst), memcap(c.dst.data)
